@@ -42,6 +42,11 @@ def gen(rng, n_cases, algos=None, gens=(2, 5)):
                "adv_init": bool(rng.randint(4) != 0),
                # termination by an evaluation budget that is not a multiple of the population size
                "n_evals_extra": int(rng.randint(1, pop_size)) if rng.randint(4) == 0 else 0,
+               # badly scaled objectives (with the grid rounding: pairs that tie in the huge one and differ in the small one)
+               "fscale": [1e16, 1.0, 1e-3, 1.0] if rng.randint(6) == 0 else None,
+               # who evaluates: the algorithm's evaluator / one built with skip_already_evaluated=False /
+               # the user, attaching F, G, H to the individuals by hand (problem-independent ask-and-tell)
+               "evalmode": ["own", "own", "own", "skipfalse", "manual"][rng.randint(5)],
                "pseed": int(rng.randint(1000)), "grid": [None, None, 0.25, 0.1][rng.randint(4)],
                "shift": float(rng.choice([-1.0, -0.3, 0.0, 0.0, 0.5, 3.0])),
                "pm": bool(rng.randint(5) == 0), "n_gen": int(rng.randint(gens[0], gens[1] + 1)),
@@ -63,7 +68,7 @@ def case_from_record(rec):
 def make_problem(c):
     from problems import GenProblem
     return GenProblem(c["n_var"], c["n_obj"], c["n_ieq"], c.get("n_eq", 0), xl=np.array(c["xl"], dtype=float), xu=np.array(c["xu"], dtype=float),
-                      seed=c["pseed"], grid=c["grid"], shift=c["shift"])
+                      seed=c["pseed"], grid=c["grid"], shift=c["shift"], fscale=c.get("fscale"))
 
 
 def make_algorithm(c, prob):
@@ -78,6 +83,9 @@ def make_algorithm(c, prob):
     a = c["algo"]
     if not c.get("adv_init", True) and a in ("de", "nsde", "gde3", "nsder"):
         kw["advance_after_initial_infill"] = False
+    if c.get("evalmode") == "skipfalse" and a in ("de", "nsde", "gde3", "nsder"):
+        from pymoo.core.evaluator import Evaluator
+        kw["evaluator"] = Evaluator(skip_already_evaluated=False)
 
     def surv():
         if c["surv_cls"] == "constr":
@@ -173,7 +181,7 @@ def run(case, replay=None):
         import contextlib, io
         with contextlib.redirect_stdout(io.StringIO()):
             algo = make_algorithm(c, prob)
-        if c.get("n_evals_extra") and c["algo"] not in ("ga", "ea-dex"):
+        if c.get("n_evals_extra") and c["algo"] not in ("ga", "ea-dex") and c.get("evalmode") != "manual":
             term = ("n_evals", c["pop_size"] * (c["n_gen"] - 1) + c["n_evals_extra"])
         else:
             term = ("n_gen", c["n_gen"])
@@ -211,7 +219,7 @@ def run(case, replay=None):
         patched_objs.append((surv, "do", None))
 
         g = 0
-        while algo.has_next():
+        while algo.has_next() and g <= c["n_gen"] + 2:      # (cap: a run that does not stop is the termination's business)
             pop_before = algo.pop
             before = snapshot(pop_before, book) if pop_before is not None and len(pop_before) else None
             n_eval0 = algo.evaluator.n_eval
@@ -233,7 +241,14 @@ def run(case, replay=None):
                 infills = algo.ask()
             n_asked = len(infills)
             x_asked = np.array(infills.get("X"), dtype=float, copy=True)
-            algo.evaluator.eval(prob, infills)
+            manual = c.get("evalmode") == "manual" and c["algo"] not in ("ga", "ea-dex")
+            if manual:
+                ev_ = prob.evaluate(np.array(infills.get("X"), dtype=float), return_as_dictionary=True)
+                for key_ in ("F", "G", "H"):
+                    if ev_.get(key_) is not None:
+                        infills.set(key_, ev_[key_])
+            else:
+                algo.evaluator.eval(prob, infills)
             n_eval1 = algo.evaluator.n_eval
             off = snapshot(infills, book)
             with Recorder("record") as R:
@@ -252,6 +267,11 @@ def run(case, replay=None):
             rec = Record(NAME, dict(c, g=g), {"pop": before, "off": off})
             rec.cfg["init"] = bool(is_init)
             rec.cfg["told_only"] = bool(tell_only)
+            rec.cfg["manual_eval"] = bool(manual)
+            if manual:
+                rec.tags.add("manual-evaluation")
+            if c.get("fscale"):
+                rec.tags.add("badly-scaled-objectives")
             if tell_only:
                 rec.tags.add("tell-without-ask")
             if prob.n_eq_constr and not prob.n_ieq_constr:
@@ -478,7 +498,11 @@ def oracle_C07(rec):
     n_off_exp = c["pop_size"] if is_de_family or c["n_off"] is None else c["n_off"]
     if rec.out["n_asked"] != n_off_exp:
         bad.append("%d offspring proposed, expected %d" % (rec.out["n_asked"], n_off_exp))
-    if rec.out["n_eval_delta"] != rec.out["n_asked"] or rec.out["n_eval_tell"] != 0:
+    if rec.cfg.get("manual_eval"):
+        if rec.out["n_eval_delta"] != 0 or rec.out["n_eval_tell"] != 0:
+            bad.append("the offspring were evaluated by the user, yet the algorithm's evaluator counted %d (+%d inside tell) evaluations" % (
+                rec.out["n_eval_delta"], rec.out["n_eval_tell"]))
+    elif rec.out["n_eval_delta"] != rec.out["n_asked"] or rec.out["n_eval_tell"] != 0:
         bad.append("%d evaluations consumed for %d offspring (+%d inside tell)" % (
             rec.out["n_eval_delta"], rec.out["n_asked"], rec.out["n_eval_tell"]))
     if len(after["ids"]) != c["pop_size"]:
